@@ -64,6 +64,8 @@ type SPkg struct {
 	Files     []SFile  `json:"files,omitempty"`
 	// only on these architectures (empty = all)
 	OnlyArch []string `json:"only_arch,omitempty"`
+	// the .apk starts with a signature member (apko keeps it as the package's signature section; it is not verified)
+	Signed bool `json:"signed,omitempty"`
 }
 
 type builtApk struct {
@@ -217,6 +219,14 @@ func buildApk(p SPkg, arch string) builtApk {
 	})
 	ctlGz := gz(ctl)
 	cs := sha1.Sum(ctlGz)
+	if p.Signed {
+		sig := gz(tarBytes(false, func(tw *tar.Writer) {
+			body := []byte("not-a-real-signature:" + p.Name + "-" + p.Version + strings.Repeat("#", 600))
+			tw.WriteHeader(&tar.Header{Name: ".SIGN.RSA.fake.rsa.pub", Mode: 0o644, Size: int64(len(body)), Typeflag: tar.TypeReg, ModTime: time.Unix(0, 0)})
+			tw.Write(body)
+		}))
+		return builtApk{bytes: append(append(append([]byte{}, sig...), ctlGz...), dataGz...), control: ctlGz, data: dataGz, checksum: cs[:], dataHash: dh[:], instSize: inst}
+	}
 	return builtApk{bytes: append(append([]byte{}, ctlGz...), dataGz...), control: ctlGz, data: dataGz, checksum: cs[:], dataHash: dh[:], instSize: inst}
 }
 
